@@ -8,6 +8,7 @@ import GapicModel.Lemmas.WrapWidth
 import GapicModel.Lemmas.RstWords
 import GapicModel.Lemmas.CodeLines
 import GapicModel.Pinned.Funcs
+import GapicModel.PyRt
 /-
 C20 — whitespace clean-up never changes code meaning (fix_whitespace part).
 Property theorems at the end; `section Aux` holds lemmas specific to them.  No Mathlib.
@@ -292,6 +293,49 @@ open GapicModel.Model.Wrap in
 /-- non-vacuity: a comment that is re-wrapped on the fast path -/
 example : rstFast T "The quick brown fox jumps over the lazy dog near the bank".toList 30 4 none
     = some "The quick brown fox\n    jumps over the lazy\n    dog near the bank\n    ".toList := by decide
+
+/-- `Metadata.doc` (translated from the current source on every run, `Pinned.Funcs.metadata_doc`) keeps the words of
+the comment block it selects: the leading comment if there is one, else the trailing comment, else the
+detached comments joined by blank lines -/
+theorem doc_words_are_the_comments_words (leading trailing : List Char) (detached : List (List Char)) :
+    words T (Pinned.Funcs.metadata_doc leading trailing detached) =
+      words T (if leading ≠ [] then leading else if trailing ≠ [] then trailing
+               else PyRt.join ['\n', '\n'] detached) := by
+  unfold Pinned.Funcs.metadata_doc
+  have hstrip : ∀ x : List Char, words T (PyRt.strip x) = words T x := fun x => Lemmas.WrapWords.strip_words x
+  by_cases h1 : leading = []
+  · by_cases h2 : trailing = []
+    · by_cases h3 : detached = []
+      · subst h1; subst h2; subst h3; simp [PyRt.truthy, PyRt.join]
+      · have : PyRt.truthy detached = true := by cases detached <;> simp_all [PyRt.truthy]
+        subst h1; subst h2; simp [PyRt.truthy, h3, show Char.ofNat 10 = '\n' from by decide]
+    · have : PyRt.truthy trailing = true := by cases trailing <;> simp_all [PyRt.truthy]
+      subst h1; simp [PyRt.truthy, this, h2, hstrip]
+  · have : PyRt.truthy leading = true := by cases leading <;> simp_all [PyRt.truthy]
+    simp [this, h1, hstrip]
+
+open GapicModel.Model.Wrap in
+/-- **End to end on the plain-text path**: the words of the docstring text produced from a leading comment
+(`rst(meta.doc, …)`, no formatting character, no double quote, no backslash) are the words of the comment -/
+theorem leading_comment_words_reach_docstring (leading trailing : List Char) (detached : List (List Char))
+    (width : Int) (indent : Nat) (nl : Option Bool) (out : List Char) (hne : leading ≠ [])
+    (hq : '"' ∉ leading) (hb : '\\' ∉ leading)
+    (h : rstFast T (Pinned.Funcs.metadata_doc leading trailing detached) width indent nl = some out) :
+    words T out = words T leading := by
+  have hdoc : Pinned.Funcs.metadata_doc leading trailing detached = PyRt.strip leading := by
+    unfold Pinned.Funcs.metadata_doc
+    have : PyRt.truthy leading = true := by cases leading <;> simp_all [PyRt.truthy]
+    simp [this]
+  rw [hdoc] at h
+  have hsub : ∀ c, c ∈ PyRt.strip leading → c ∈ leading := by
+    intro c hc
+    have h1 : c ∈ PyRt.lstrip leading := by
+      unfold PyRt.strip PyRt.rstrip at hc
+      have := List.mem_reverse.mp hc
+      exact List.mem_reverse.mp ((List.dropWhile_sublist _).subset this)
+    exact (List.dropWhile_sublist _).subset h1
+  rw [plain_comment_words_reach_docstring _ width indent nl out (fun hm => hq (hsub _ hm)) (fun hm => hb (hsub _ hm)) h]
+  exact Lemmas.WrapWords.strip_words leading
 
 /-- the colon rule of `wrap` (`re.sub(r":\n([^\n])", r":\n\n\1", text)`), run by the regex engine on the
 pattern the translator extracts from the source, IS the plain function `colonSub` the proof reasons about -/
